@@ -209,7 +209,45 @@ def case_init(c, logpath, src=None):
     return guarded(lambda: len(list(init.initialize(problem, rep, rnd, c["k"]))))
 
 
-FUNS = {"len": case_len, "elitism": case_elitism, "tournament": case_tournament, "lexicase": case_lexicase, "init": case_init}
+def case_inputs(c, logpath, src=None):
+    """C09 for steps: the individuals handed to a step are the same afterwards (genotype, cached phenotype, cached fitness)"""
+    import math
+
+    n = c["n"]
+    special = {"nan": float("nan"), "inf": float("inf"), "-inf": float("-inf")}
+    table = [[special[x] if isinstance(x, str) else frac(x) for x in comps] for comps in c["table"]]
+    from harness.drivers.search import FF
+    from geneticengine.problems import MultiObjectiveProblem, SingleObjectiveProblem
+
+    if c["mo"]:
+        problem = MultiObjectiveProblem(list(c["mins"]), FF(table, 0, logpath, False, None))
+    else:
+        problem = SingleObjectiveProblem(FF(table, 0, logpath, True, None), minimize=c["mins"][0])
+    rep = CounterRepr()
+    rep.n = n
+    inds = [Individual(genotype=i, representation=rep) for i in range(n)]
+    ev = SequentialEvaluator()
+    guarded(lambda: ev.evaluate(problem, inds))
+
+    def fnum(x):
+        return "nan" if isinstance(x, float) and math.isnan(x) else repr(x)
+
+    def snap(ind):
+        fs = []
+        for pr, f in ind.fitness_store.items():
+            fs.append([fnum(f.maximizing_aggregate), [fnum(x) for x in f.fitness_components], id(f.fitness_components)])
+        # (Individual.metadata - the generation tag the steps put on survivors - is not part of what the property lists)
+        return [repr(ind.genotype), repr(ind.phenotype), fs]
+    before = [snap(i) for i in inds]
+    step = mk_step(c["step"])
+    rnd = src or NativeRandomSource(c.get("seed", 0))
+    r = guarded(lambda: len(list(step.apply(problem, ev, rep, rnd, as_form(c["form"], inds, problem), c["k"], 1))))
+    after = [snap(i) for i in inds]
+    changed = [[i, b, a] for i, (b, a) in enumerate(zip(before, after)) if b != a]
+    return {"ok": {"res": r, "changed": changed[:5], "n_changed": len(changed)}}
+
+
+FUNS = {"inputs": case_inputs, "len": case_len, "elitism": case_elitism, "tournament": case_tournament, "lexicase": case_lexicase, "init": case_init}
 
 
 def run_one(c, logpath):
